@@ -2,7 +2,8 @@
    Copies: core/pkg/distribution/ontology/resource.go (ID.Validate, ID.String, ParseID),
            relationship.go (GorpKey, ParseRelationship),
            writer_dag.go (DefineResource, DeleteResource, DefineRelationship,
-             DefineFromOneToManyRelationships, DeleteRelationship, checkRelationshipExists,
+             DefineFromOneToManyRelationships, DeleteRelationship, DeleteManyResources,
+             DefineManyResources, checkRelationshipExists,
              validateResourcesExist, retrieveOutgoingRelationships, retrieveResources,
              retrieveDescendants, deleteIncomingRelationships, deleteOutgoingRelationships),
            retrieve.go (Retrieve.Exec clause loop, ParentsTraverser via the by-To lookup index
@@ -198,6 +199,20 @@ Definition del_outgoing (i : id) (m : relmap) : relmap :=
 Definition delete_resource (st : ost) (i : id) : ost * err :=
   (OSt (delete (id_str i) (o_res st)) (del_outgoing i (del_incoming i (o_rels st))), EOk).
 
+(* DeleteManyResources: incoming and outgoing relationships of every id, then the resource rows
+   (the relationship scans do not read the resource table, so the result equals deleting the
+   ids one after the other) *)
+Definition delete_resources (o : ost) (ids : list id) : ost :=
+  fold_left (fun o i => (delete_resource o i).1) ids o.
+Definition delete_many_resources (st : ost) (ids : list id) : ost * err :=
+  (delete_resources st ids, EOk).
+
+(* DefineManyResources: every id is validated first, then all rows are written *)
+Definition define_many_resources (st : ost) (ids : list id) : ost * err :=
+  if forallb id_valid ids
+  then (fold_left (fun o i => (define_resource o i).1) ids st, EOk)
+  else (st, EValidation).
+
 Definition define_relationship (c : cfg) (st : ost) (f : id) (ty : str) (t : id) : ost * err :=
   if f11 c && bool_decide (f = t) then (st, ECyclic) else
   (* checkRelationshipExists: the reverse edge wins over the existing edge *)
@@ -315,6 +330,8 @@ Inductive op :=
 | DefRel (f : id) (ty : str) (t : id)
 | DefMany (f : id) (ty : str) (ts : list id)
 | DelRel (f : id) (ty : str) (t : id)
+| DelMany (xs : list id)
+| DefManyRes (xs : list id)
 | Begin | Commit | Abort.
 
 Definition cur (s : sys) : ost := default (s_db s) (s_tx s).
@@ -331,6 +348,8 @@ Definition apply (c : cfg) (st : ost) (o : op) : ost * err :=
   | DefRel f ty t => define_relationship c st f ty t
   | DefMany f ty ts => define_many c st f ty ts
   | DelRel f ty t => delete_relationship st f ty t
+  | DelMany xs => delete_many_resources st xs
+  | DefManyRes xs => define_many_resources st xs
   | _ => (st, EOk)
   end.
 
